@@ -41,7 +41,9 @@ class Sched:
   def caller_line(self, depth=2):
     f = sys._getframe(depth)
     # climb out of this module and of contextlib / threading helpers
-    while f is not None and (f.f_code.co_filename == __file__ or 'threading.py' in f.f_code.co_filename or 'contextlib' in f.f_code.co_filename):
+    import os
+    here = os.path.dirname(os.path.abspath(__file__))
+    while f is not None and (f.f_code.co_filename.startswith(here) or 'threading.py' in f.f_code.co_filename or 'contextlib' in f.f_code.co_filename):
       f = f.f_back
     return f.f_lineno if f is not None else 0
 
@@ -216,7 +218,7 @@ class ModelIter:
   def __next__(self):
     self.s.point('next', self.name)
     if self.dead:
-      raise StopIteration(self.ret)
+      raise (StopIteration(self.ret) if self.ret is not None else StopIteration())
     if self.fail is not None and self.pos == self.fail:
       if self.resumable:
         self.pos += 1
@@ -224,7 +226,7 @@ class ModelIter:
         self.dead = True
       raise ValueError(7)
     if self.pos >= self.n:
-      raise StopIteration(self.ret)
+      raise (StopIteration(self.ret) if self.ret is not None else StopIteration())
     v = self.base + self.pos
     self.pos += 1
     return v
@@ -250,6 +252,8 @@ def stop_key(enc, sysm, tid, pc):
       return ('wr', f'{dst[1]}.{enc.canon(("g", dst[1], dst[2]))[2]}', ins['line'])
     if isinstance(e, tuple) and e[0] == 'g':
       return ('rd', f'{e[1]}.{enc.canon(e)[2]}', ins['line'])
+  if op == 'join':
+    return ('join', '', ins['line'])
   if op in ('halt', 'br', 'jmp', 'nop', 'start'):
     return ('start', '', 0)
   return (op, '', ins['line'])
@@ -267,6 +271,8 @@ def run_schedule(sysm, enc, trace, make_threads, run_after=True, settle_s=2.0):
   for st in trace['steps']:
     tid, pc = st['thread'], st['pc']
     key = stop_key(enc, sysm, tid, pc)
+    if (tid, pc) in getattr(enc, 'loop_pps', ()):
+      continue                          # artificial loop-breaking PP: nothing observable happens there
     if tid not in seen_first:           # a thread's first step starts at its entry, whatever instruction is there
       seen_first.add(tid)
       key = ('start', '', 0)
